@@ -6,6 +6,7 @@ import (
 	"errors"
 	"io"
 	"net/http"
+	"sort"
 	"strings"
 
 	"connectrpc.com/connect"
@@ -176,6 +177,9 @@ type Reply struct {
 	// LowerCaseTrailerDecl announces declared trailers in lower case (values are still set
 	// under the canonical key, which is where net/http looks them up).
 	LowerCaseTrailerDecl bool
+	// TrailerDeclList announces all declared trailers in ONE Trailer header value, as a
+	// comma + space separated list ("A, B, C"), the way most servers and proxies do.
+	TrailerDeclList bool
 }
 
 // Backend is a scripted http.Handler that records what it saw.
@@ -234,11 +238,20 @@ func WriteReply(w http.ResponseWriter, rep *Reply, errs *[]string) {
 		h.Set("Content-Length", itoa(rep.ContentLength))
 	}
 	if rep.DeclaredTrailers && len(out.Trailer) > 0 {
+		var names []string
 		for k := range out.Trailer {
 			if rep.LowerCaseTrailerDecl {
 				k = strings.ToLower(k)
 			}
-			h.Add("Trailer", k)
+			names = append(names, k)
+		}
+		sort.Strings(names)
+		if rep.TrailerDeclList {
+			h.Add("Trailer", strings.Join(names, ", "))
+		} else {
+			for _, k := range names {
+				h.Add("Trailer", k)
+			}
 		}
 	}
 	w.WriteHeader(out.Status)
